@@ -199,6 +199,55 @@ func numeralKind(s string) byte {
 	return 'd'
 }
 
+// respellLongDecimal rewrites a long decimal numeral of the Lua grammar as 0.<digits>e<exponent>
+// with the same value. strconv.ParseFloat keeps only the first 800 digits of a numeral and takes
+// the position of the decimal point from the digits it kept, and it stops reading an exponent at
+// 10000, so a numeral with more than 800 integer digits (or with that many zeros after the point
+// and a matching exponent) would get a value wrong by orders of magnitude. In the respelled form
+// the point comes first and the exponent is small or saturated, which ParseFloat rounds correctly.
+func respellLongDecimal(u string) string {
+	mant, exp := u, ""
+	if i := strings.IndexAny(u, "eE"); i >= 0 {
+		mant, exp = u[:i], u[i+1:]
+	}
+	ip, fp := mant, ""
+	if i := strings.IndexByte(mant, '.'); i >= 0 {
+		ip, fp = mant[:i], mant[i+1:]
+	}
+	ip = strings.TrimLeft(ip, "0")
+	digits := strings.TrimLeft(ip+fp, "0")
+	if digits == "" {
+		return "0"
+	}
+	// the value is 0.<digits> * 10^point
+	point := int64(len(ip)) - int64(len(ip)+len(fp)-len(digits))
+	if len(ip) > 0 {
+		point = int64(len(ip))
+	}
+	const limit = int64(1) << 40
+	e, neg := int64(0), false
+	for i := 0; i < len(exp); i++ {
+		switch c := exp[i]; {
+		case c == '-':
+			neg = true
+		case c == '+':
+		case e < limit:
+			e = e*10 + int64(c-'0')
+		}
+	}
+	if neg {
+		e = -e
+	}
+	switch total := point + e; {
+	case total > 400:
+		return "1e400" // beyond the largest float: infinity
+	case total < -400:
+		return "0" // below the smallest subnormal
+	default:
+		return "0." + digits + "e" + strconv.FormatInt(total, 10)
+	}
+}
+
 // parseNumber converts a string to a number as Lua 5.1 does: an optionally signed decimal or
 // 0x-hexadecimal numeral, blanks allowed around it. Go's own literal syntax (a leading 0 meaning
 // octal, 0b, 0o, '_' between digits, hexadecimal fractions and exponents, "inf", "nan") is not
@@ -213,6 +262,9 @@ func parseNumber(number string) (LNumber, error) {
 	var err error
 	switch numeralKind(unsigned) {
 	case 'd':
+		if len(unsigned) > 256 {
+			number = number[:len(number)-len(unsigned)] + respellLongDecimal(unsigned)
+		}
 		v, err = strconv.ParseFloat(number, LNumberBit)
 	case 'x':
 		// an integer of any length: ParseFloat rounds a long hexadecimal mantissa correctly
